@@ -24,7 +24,7 @@ Q_CPP = "decaylanguage.modeling.ampgen2goofit.ampgen2goofit"
 Q_PY = "decaylanguage.modeling.ampgen2goofit.ampgen2goofitpy"
 OPS = ("AC", "GF", "PY")
 OP_FUNCTION = {"AC": Q_READ, "GF": Q_CPP, "PY": Q_PY}
-SEQ_FILES = ("vv-polar", "cascade-spline-cartesian", "swave-kmatrix-focus-opt0", "4pi-tensor")
+SEQ_FILES = ("vv-polar", "cascade-spline-cartesian", "swave-kmatrix-focus-opt0", "same-lines-permuted-eventtype-cartesian")
 
 META = {
     "level": "other",
